@@ -4,7 +4,6 @@ CONSTANTS
   Chunks = 100
   SampleN = 0
   SampleCount = 0
-  Seed = 1
 INIT Init
 NEXT Next
 INVARIANT Check
